@@ -131,7 +131,7 @@ SPECS = {
     "C19": {
         "driver": H, "level": "exploration",
         "block_mod": "simkit.fsim", "block_fn": "fs_block", "rebuild_mod": "simkit.fsim",
-        "runs": {"quick": 300, "thorough": 10000},
+        "runs": {"quick": 300, "thorough": 100000},
         "rule": "seeded directory trees (nesting <= 4, empty folders, sort-sensitive and unicode "
                 "names, sizes 0..10 kB, fractional mtimes) materialised in a scratch directory "
                 "and scanned with sort on/off under 4 seeded permutations of os.listdir / "
@@ -149,7 +149,7 @@ SPECS = {
     "C20": {
         "driver": H, "level": "exploration",
         "block_mod": "simkit.prng", "block_fn": "prng_block", "rebuild_mod": "simkit.prng",
-        "runs": {"quick": 1500, "thorough": 100000},
+        "runs": {"quick": 1500, "thorough": 2000000},
         "rule": "seeded structure definitions (relation DAGs of 1-4 types, fixed and randomized "
                 "counts with and without probability, '*'/type/relation attribute merges, "
                 "{idx}/{hier_idx} macros, Range (int/float), DateRange (date / JS stamp), Value, "
